@@ -194,6 +194,59 @@ macro_rules! version_common {
                 }
             }
 
+            /// ChunksIter call by call: `pos()` and `len()` before every call, the chunk and the warnings of
+            /// that call, the first `None`, and two more calls after it.
+            pub fn iter_steps(data: &[u8], nc: u8) -> Value {
+                let base = data.as_ptr() as usize;
+                let r = guarded(WD_MS, || {
+                    let mut it = $p::ChunksIter::new(data, nc);
+                    let mut steps = Vec::new();
+                    let mut inb = true;
+                    loop {
+                        if steps.len() > data.len() + 1 {
+                            return (json!({"r": "runaway"}), inb);
+                        }
+                        let pos = it.pos();
+                        let rem = it.len();
+                        let mut w: Vec<$p::Warning> = Vec::new();
+                        match it.next_warn(&mut w) {
+                            Some(c) => {
+                                inb &= inside(c.data, &[range_of(data)]);
+                                let off = (c.data.as_ptr() as usize).wrapping_sub(base);
+                                steps.push(json!({"pos": pos, "rem": rem, "w": names(&w), "c": {
+                                    "off": if c.data.is_empty() && off > data.len() { 0 } else { off },
+                                    "len": c.data.len(),
+                                    "vital": c.vital.is_some(),
+                                    "seq": c.vital.map(|v| v.0).unwrap_or(0),
+                                    "resend": c.vital.map(|v| v.1).unwrap_or(false),
+                                }}));
+                            }
+                            None => {
+                                let end = json!({"pos": pos, "rem": rem, "w": names(&w), "pos_after": it.pos()});
+                                let mut after = Vec::new();
+                                for _ in 0..2 {
+                                    let mut w2: Vec<$p::Warning> = Vec::new();
+                                    let some = it.next_warn(&mut w2).is_some();
+                                    after.push(json!({"some": some, "w": names(&w2)}));
+                                }
+                                return (json!({"r": "ok", "steps": steps, "end": end, "after": after}), inb);
+                            }
+                        }
+                    }
+                });
+                match r {
+                    Ok((mut v, inb)) => {
+                        v["inb"] = Value::from(inb);
+                        v
+                    }
+                    Err(m) => {
+                        let mut p = panic_json(&m);
+                        p["inb"] = Value::from(true);
+                        p
+                    }
+                }
+            }
+
             /// The chunk area the library's `write_chunk` produces for a chunk list.
             pub fn build_area(cl: &Value) -> Result<Vec<u8>, String> {
                 let mut area = Vec::new();
@@ -261,6 +314,28 @@ macro_rules! version_common {
                     Ok((h, w)) => json!({"r": "ok", "h": chv_json(h), "w": names(&w)}),
                     Err(m) => panic_json(&m),
                 }
+            }
+
+            // the same calls without JSON, for the sweeps over whole header spaces (class tables)
+            pub fn fast_un_ch(b: &[u8], wn: &[String]) -> ([i64; 3], i64) {
+                let mut w: Vec<$p::Warning> = Vec::new();
+                let h = $p::ChunkHeaderPacked::read_from(b).expect("size").unpack_warn(&mut w);
+                ([h.flags as i64, h.size as i64, 0], wmask(&w, wn))
+            }
+            pub fn fast_un_chv(b: &[u8], wn: &[String]) -> ([i64; 3], i64) {
+                let mut w: Vec<$p::Warning> = Vec::new();
+                let h = $p::ChunkHeaderVitalPacked::read_from(b).expect("size").unpack_warn(&mut w);
+                ([h.h.flags as i64, h.h.size as i64, h.sequence as i64], wmask(&w, wn))
+            }
+            pub fn fast_pk_ch(f: &[i64; 3], out: &mut [u8; 9]) -> usize {
+                let p = $p::ChunkHeader { flags: f[0] as u8, size: f[1] as u16 }.pack();
+                out[..2].copy_from_slice(p.as_bytes());
+                2
+            }
+            pub fn fast_pk_chv(f: &[i64; 3], out: &mut [u8; 9]) -> usize {
+                let p = $p::ChunkHeaderVital { h: $p::ChunkHeader { flags: f[0] as u8, size: f[1] as u16 }, sequence: f[2] as u16 }.pack();
+                out[..3].copy_from_slice(p.as_bytes());
+                3
             }
         }
     };
@@ -382,6 +457,283 @@ fn unpack_any(v: u64, hk: &str, b: &[u8]) -> Value {
         (7, "chv") => c7::unpack_chv(b),
         _ => skip(),
     }
+}
+
+// ---------------------------------------------------------------- sweeps of whole header spaces against class tables
+
+/// Bit j set iff warning `wn[j]` was emitted; -1 for a warning the table does not know or one emitted twice.
+fn wmask<W: Debug>(w: &[W], wn: &[String]) -> i64 {
+    let mut m = 0i64;
+    for x in w {
+        let name = format!("{:?}", x);
+        match wn.iter().position(|n| *n == name) {
+            Some(j) if m & (1 << j) == 0 => m |= 1 << j,
+            _ => return -1,
+        }
+    }
+    m
+}
+
+/// A class table exported by TLC from spec/wire/WireTab.tla: the value the specification defines for
+/// every tuple x of a header space, in factored form  base + sum_k val[k][x_k] + inter[classes of x].
+struct Tab {
+    id: String,
+    v: u64,
+    hk: String,
+    hb: bool,
+    sfx: Vec<u8>,
+    dom: Vec<usize>,
+    wnames: Vec<String>,
+    base: Vec<i64>,
+    val: Vec<Vec<Vec<i64>>>,
+    cls: Vec<Vec<usize>>,
+    ncls: Vec<usize>,
+    inter: Vec<Vec<i64>>,
+}
+
+fn ivec(v: &Value) -> Vec<i64> {
+    v.as_array().map(|a| a.iter().map(|x| x.as_i64().unwrap_or(0)).collect()).unwrap_or_default()
+}
+
+impl Tab {
+    fn from_json(t: &Value) -> Option<Tab> {
+        let arr = |v: &Value| v.as_array().cloned().unwrap_or_default();
+        let tab = Tab {
+            id: t["id"].as_str()?.to_string(),
+            v: t["v"].as_u64()?,
+            hk: t["hk"].as_str()?.to_string(),
+            hb: t["mode"].as_str()? == "hb",
+            sfx: jb(&t["sfx"]),
+            dom: ivec(&t["dom"]).iter().map(|&x| x as usize).collect(),
+            wnames: arr(&t["wnames"]).iter().map(|x| x.as_str().unwrap_or("").to_string()).collect(),
+            base: ivec(&t["base"]),
+            val: arr(&t["val"]).iter().map(|k| arr(k).iter().map(ivec).collect()).collect(),
+            cls: arr(&t["cls"]).iter().map(|k| ivec(k).iter().map(|&x| x as usize).collect()).collect(),
+            ncls: ivec(&t["ncls"]).iter().map(|&x| x as usize).collect(),
+            inter: arr(&t["inter"]).iter().map(ivec).collect(),
+        };
+        let n = tab.dom.len();
+        let ok = n >= 1 && n <= 3 && tab.val.len() == n && tab.cls.len() == n && tab.ncls.len() == n
+            && (0..n).all(|k| tab.val[k].len() == tab.dom[k] && tab.cls[k].len() == tab.dom[k])
+            && tab.inter.len() == tab.ncls.iter().product::<usize>();
+        if ok { Some(tab) } else { None }
+    }
+    /// What the table says for tuple x.
+    fn expected(&self, x: &[usize], out: &mut [i64]) {
+        let mut ix = 0usize;
+        let mut mul = 1usize;
+        for k in 0..x.len() {
+            ix += self.cls[k][x[k]] * mul;
+            mul *= self.ncls[k];
+        }
+        let it = &self.inter[ix];
+        for j in 0..self.base.len() {
+            let mut a = self.base[j] + it[j];
+            for k in 0..x.len() {
+                a += self.val[k][x[k]][j];
+            }
+            out[j] = a;
+        }
+    }
+    /// What the real code does for tuple x, laid out like the table's vectors. Returns the length.
+    fn real(&self, x: &[usize], out: &mut [i64]) -> usize {
+        let mut b = [0u8; 12];
+        let mut f = [0i64; 3];
+        let mut t = [0u8; 8];
+        let nt = self.sfx.len();
+        let nf = match self.hk.as_str() { "ph" | "chv" => 3, _ => 2 };
+        let mut n = 0usize;
+        if self.hb {
+            for (k, &xk) in x.iter().enumerate() {
+                b[k] = xk as u8;
+            }
+            let nb = x.len() + nt;
+            b[x.len()..nb].copy_from_slice(&self.sfx);
+            let wm = fast_unpack(self.v, &self.hk, &b[..nb], &self.wnames, &mut f, &mut t);
+            let mut rb = [0u8; 9];
+            let rn = fast_pack(self.v, &self.hk, &f, &t, &mut rb);
+            for j in 0..nf { out[n] = f[j]; n += 1; }
+            for j in 0..nt { out[n] = t[j] as i64; n += 1; }
+            out[n] = wm; n += 1;
+            for j in 0..rn { out[n] = rb[j] as i64; n += 1; }
+        } else {
+            for (k, &xk) in x.iter().enumerate() {
+                f[k] = xk as i64;
+            }
+            t[..nt].copy_from_slice(&self.sfx);
+            let mut pb = [0u8; 9];
+            let pn = fast_pack(self.v, &self.hk, &f, &t, &mut pb);
+            let mut f2 = [0i64; 3];
+            let mut t2 = [0u8; 8];
+            let wm = fast_unpack(self.v, &self.hk, &pb[..pn], &self.wnames, &mut f2, &mut t2);
+            for j in 0..pn { out[n] = pb[j] as i64; n += 1; }
+            for j in 0..nf { out[n] = f2[j]; n += 1; }
+            for j in 0..nt { out[n] = t2[j] as i64; n += 1; }
+            out[n] = wm; n += 1;
+        }
+        n
+    }
+    /// The ordinary hb / hf case of tuple x (what `exec_case` takes).
+    fn case(&self, x: &[usize]) -> Value {
+        if self.hb {
+            let mut b: Vec<u8> = x.iter().map(|&v| v as u8).collect();
+            b.extend_from_slice(&self.sfx);
+            json!({"k": "hb", "v": self.v, "hk": self.hk, "b": bj(&b)})
+        } else {
+            let h = match (self.v, self.hk.as_str()) {
+                (6, "ph") => json!({"flags": x[0], "ack": x[1], "nc": x[2]}),
+                (_, "ph") => json!({"flags": x[0], "ack": x[1], "nc": x[2], "token": bj(&self.sfx)}),
+                (_, "phc") => json!({"flags": x[0], "version": x[1], "token": bj(&self.sfx[..4]), "rtoken": bj(&self.sfx[4..])}),
+                (_, "ch") => json!({"flags": x[0], "size": x[1]}),
+                _ => json!({"flags": x[0], "size": x[1], "seq": x[2]}),
+            };
+            json!({"k": "hf", "v": self.v, "hk": self.hk, "h": h})
+        }
+    }
+}
+
+fn fast_unpack(v: u64, hk: &str, b: &[u8], wn: &[String], f: &mut [i64; 3], t: &mut [u8; 8]) -> i64 {
+    match (v, hk) {
+        (6, "ph") => {
+            let mut w: Vec<p6::Warning> = Vec::new();
+            let h = p6::PacketHeaderPacked::read_from(b).expect("size").unpack_warn(&mut w);
+            *f = [h.flags as i64, h.ack as i64, h.num_chunks as i64];
+            wmask(&w, wn)
+        }
+        (7, "ph") => {
+            let mut w: Vec<p7::Warning> = Vec::new();
+            let h = p7::PacketHeaderPacked::read_from(b).expect("size").unpack_warn(&mut w);
+            *f = [h.flags as i64, h.ack as i64, h.num_chunks as i64];
+            t[..4].copy_from_slice(&h.token.0);
+            wmask(&w, wn)
+        }
+        (7, "phc") => {
+            let mut w: Vec<p7::Warning> = Vec::new();
+            let h = p7::PacketHeaderConnlessPacked::read_from(b).expect("size").unpack_warn(&mut w);
+            *f = [h.flags as i64, h.version as i64, 0];
+            t[..4].copy_from_slice(&h.token.0);
+            t[4..8].copy_from_slice(&h.response_token.0);
+            wmask(&w, wn)
+        }
+        (6, "ch") => { let (g, m) = c6::fast_un_ch(b, wn); *f = g; m }
+        (6, "chv") => { let (g, m) = c6::fast_un_chv(b, wn); *f = g; m }
+        (7, "ch") => { let (g, m) = c7::fast_un_ch(b, wn); *f = g; m }
+        (7, "chv") => { let (g, m) = c7::fast_un_chv(b, wn); *f = g; m }
+        _ => -2,
+    }
+}
+
+fn fast_pack(v: u64, hk: &str, f: &[i64; 3], t: &[u8; 8], out: &mut [u8; 9]) -> usize {
+    match (v, hk) {
+        (6, "ph") => {
+            let p = p6::PacketHeader { flags: f[0] as u8, ack: f[1] as u16, num_chunks: f[2] as u8 }.pack();
+            out[..3].copy_from_slice(p.as_bytes());
+            3
+        }
+        (7, "ph") => {
+            let p = p7::PacketHeader { flags: f[0] as u8, ack: f[1] as u16, num_chunks: f[2] as u8, token: p7::Token([t[0], t[1], t[2], t[3]]) }.pack();
+            out[..7].copy_from_slice(p.as_bytes());
+            7
+        }
+        (7, "phc") => {
+            let p = p7::PacketHeaderConnless {
+                flags: f[0] as u8,
+                version: f[1] as u8,
+                token: p7::Token([t[0], t[1], t[2], t[3]]),
+                response_token: p7::Token([t[4], t[5], t[6], t[7]]),
+            }
+            .pack();
+            out[..9].copy_from_slice(p.as_bytes());
+            9
+        }
+        (6, "ch") => c6::fast_pk_ch(f, out),
+        (6, "chv") => c6::fast_pk_chv(f, out),
+        (7, "ch") => c7::fast_pk_ch(f, out),
+        (7, "chv") => c7::fast_pk_chv(f, out),
+        _ => 0,
+    }
+}
+
+/// Runs every tuple of the table's space through the real code. A tuple on which the code differs from the
+/// table (or panics) and every `stride`-th other tuple is handed to `emit` as an ordinary hb / hf case (it is
+/// then re-executed with full observation and judged by WireTrace.tla like every other event).
+/// Returns (tuples, mismatches, panics, sampled).
+fn sweep(tab: &Tab, emit: &mut dyn FnMut(&Value)) -> (u64, u64, u64, u64) {
+    const MAX_REPORTED: u64 = 300;
+    let n = tab.dom.len();
+    let total: u64 = tab.dom.iter().map(|&d| d as u64).product();
+    let stride = (total / 251).max(1) | 1;
+    let last = tab.dom[n - 1];
+    let outer: usize = tab.dom[..n - 1].iter().product();
+    let (mut mism, mut panics, mut sampled, mut idx) = (0u64, 0u64, 0u64, 0u64);
+    let m = tab.base.len();
+    for o in 0..outer {
+        // the leading coordinates of this row
+        let mut x = vec![0usize; n];
+        let mut r = o;
+        for k in (0..n - 1).rev() {
+            x[k] = r % tab.dom[k];
+            r /= tab.dom[k];
+        }
+        // fast path: the whole row under one catch_unwind / watchdog
+        let row = guarded(WD_MS * 4, || {
+            let mut bad: Vec<usize> = Vec::new();
+            let mut e = [0i64; 24];
+            let mut g = [0i64; 24];
+            let mut xx = x.clone();
+            for y in 0..last {
+                xx[n - 1] = y;
+                tab.expected(&xx, &mut e);
+                let gn = tab.real(&xx, &mut g);
+                if gn != m || e[..m] != g[..m] {
+                    bad.push(y);
+                }
+            }
+            bad
+        });
+        let bad: Vec<usize> = match row {
+            Ok(b) => b,
+            Err(_) => {
+                // some tuple of the row panics: find out which, one by one
+                let mut b = Vec::new();
+                for y in 0..last {
+                    let mut xx = x.clone();
+                    xx[n - 1] = y;
+                    let one = guarded(WD_MS, || {
+                        let mut e = [0i64; 24];
+                        let mut g = [0i64; 24];
+                        tab.expected(&xx, &mut e);
+                        let gn = tab.real(&xx, &mut g);
+                        gn == m && e[..m] == g[..m]
+                    });
+                    match one {
+                        Ok(true) => {}
+                        Ok(false) => b.push(y),
+                        Err(_) => {
+                            panics += 1;
+                            b.push(y);
+                        }
+                    }
+                }
+                b
+            }
+        };
+        for y in 0..last {
+            let is_bad = bad.binary_search(&y).is_ok();
+            if is_bad {
+                mism += 1;
+            }
+            if (is_bad && mism <= MAX_REPORTED) || (!is_bad && idx % stride == 0) {
+                x[n - 1] = y;
+                if !is_bad {
+                    sampled += 1;
+                }
+                emit(&tab.case(&x));
+            }
+            idx += 1;
+        }
+    }
+    (total, mism, panics, sampled)
 }
 
 // ---------------------------------------------------------------- packets <-> JSON
@@ -821,7 +1173,8 @@ fn exec_case(case: &Value) -> Value {
             let hint = case["hint"].as_str().unwrap_or("none");
             let ro = read_obj(v, &jb(&case["bytes"]), hint, cap);
             let rw = if ro["out"]["r"] == "ok" {
-                Value::Object(rt_block(v, &ro["out"]["p"], DEFAULT_CAP, DEFAULT_CAP, Some(hint)))
+                // the accepted value is written out and read back by a reader with the same scratch size
+                Value::Object(rt_block(v, &ro["out"]["p"], DEFAULT_CAP, cap, Some(hint)))
             } else {
                 skip()
             };
@@ -829,6 +1182,80 @@ fn exec_case(case: &Value) -> Value {
                 ev.insert(key, val);
             }
             ev.insert("rw".into(), rw);
+        }
+        "wc" => {
+            // one packet value written into buffers of many capacities
+            let p = case["p"].clone();
+            let o = Owned::from_json(&p);
+            let mut zs = Vec::new();
+            if o.t == "chunks" {
+                zs.push(compress_sample(&o.data));
+                if v == 6 && !o.token.is_empty() {
+                    let mut both = o.data.clone();
+                    both.extend_from_slice(&o.token);
+                    zs.push(compress_sample(&both));
+                }
+            }
+            let write_into = |cap: usize| -> (Value, Option<Vec<u8>>, bool) {
+                let mut arena = Arena::new(cap);
+                let r = guarded(WD_MS, || {
+                    if v == 6 {
+                        o.packet6().map(|p| p.write(arena.slice()).map(|s| s.to_vec()).map_err(|e| variant(&e)))
+                    } else {
+                        o.packet7().map(|p| p.write(arena.slice()).map(|s| s.to_vec()).map_err(|e| variant(&e)))
+                    }
+                });
+                let canary = arena.canary_ok();
+                match r {
+                    Err(m) => (panic_json(&m), None, canary),
+                    Ok(None) => (json!({"r": "badcase"}), None, canary),
+                    Ok(Some(Err(e))) => (json!({"r": "err", "e": e}), None, canary),
+                    Ok(Some(Ok(b))) => (json!({"r": "ok"}), Some(b), canary),
+                }
+            };
+            let (mut rf, rbytes, _) = write_into(DEFAULT_CAP);
+            rf["bytes"] = bj(rbytes.as_deref().unwrap_or(&[]));
+            let mut ws = Vec::new();
+            for c in case["caps"].as_array().map(|a| a.as_slice()).unwrap_or(&[]) {
+                let cap = c.as_u64().unwrap_or(0) as usize;
+                let (mut w, b, canary) = write_into(cap);
+                w["cap"] = Value::from(cap);
+                w["canary"] = Value::from(canary);
+                w["n"] = Value::from(b.as_ref().map(|x| x.len()).unwrap_or(0));
+                w["same"] = Value::from(b.is_some() && b == rbytes);
+                if w.get("e").is_none() {
+                    w["e"] = Value::from("");
+                }
+                ws.push(w);
+            }
+            ev.insert("p".into(), p);
+            ev.insert("zs".into(), Value::Array(zs));
+            ev.insert("ref".into(), rf);
+            ev.insert("ws".into(), Value::Array(ws));
+        }
+        "it" => {
+            let data: Box<[u8]> = jb(&case["data"]).into_boxed_slice();
+            let nc = case["nc"].as_u64().unwrap_or(0) as u8;
+            let st = if v == 6 { c6::iter_steps(&data, nc) } else { c7::iter_steps(&data, nc) };
+            let (ci, inb2) = if v == 6 { c6::iter_chunks(&data, nc, &[range_of(&data)]) } else { c7::iter_chunks(&data, nc, &[range_of(&data)]) };
+            ev.insert("nc".into(), Value::from(nc));
+            ev.insert("data".into(), bj(&data));
+            let inb = st["inb"].as_bool().unwrap_or(true) && inb2;
+            if let Value::Object(m) = st {
+                for (key, val) in m {
+                    ev.insert(key, val);
+                }
+            }
+            for key in ["steps", "after"] {
+                if !ev.contains_key(key) {
+                    ev.insert(key.into(), json!([]));
+                }
+            }
+            if !ev.contains_key("end") {
+                ev.insert("end".into(), json!({"pos": 0, "rem": 0, "w": [], "pos_after": 0}));
+            }
+            ev.insert("inb".into(), Value::from(inb));
+            ev.insert("ci".into(), ci);
         }
         _ => {
             ev.insert("k".into(), Value::from("badcase"));
@@ -1428,6 +1855,105 @@ fn drive(seed: u64, tier: &str, parts: &str, emit_all: &mut dyn FnMut(&Value)) {
         }
     }
 
+    // (11) the compression choice (C05): inputs of the codec whose compressed form is one byte shorter than,
+    //      exactly as long as, and one byte longer than the input itself. The check derives such inputs from
+    //      the code-word lengths of spec/huffman/HuffTable.tla (VH_TIES: codec input = chunk area; VH_TIES_TOK:
+    //      chunk areas whose codec input in 0.6 is area + token 09 08 07 06); in addition a search with the
+    //      library's own length function over mixed content of several sizes.
+    {
+        let unhex = |s: &str| -> Vec<u8> { (0..s.len() / 2).filter_map(|i| u8::from_str_radix(&s[2 * i..2 * i + 2], 16).ok()).collect() };
+        let list = |name: &str| -> Vec<Vec<u8>> {
+            std::env::var(name).map(|s| s.split(',').filter(|x| !x.is_empty()).map(|x| unhex(x)).collect()).unwrap_or_default()
+        };
+        let mut plain = list("VH_TIES");
+        let mut withtok = list("VH_TIES_TOK");
+        // search: zeros progressively replaced by long-code bytes until the compressed length crosses the input length
+        let sizes: &[usize] = if thorough { &[5, 8, 16, 33, 48, 100, 500, 1000, 1393] } else { &[8, 33, 100, 1393] };
+        for &n in sizes {
+            for (extra, dst) in [(0usize, 0usize), (4, 1)] {
+                for sym in [long[0], long[long.len() - 1], 0x41] {
+                    let mut data = vec![0u8; n];
+                    let mut seen = [false; 3];
+                    for k in 0..n {
+                        data[k] = sym;
+                        let mut input = data.clone();
+                        if extra == 4 {
+                            input.extend_from_slice(&[9, 8, 7, 6]);
+                        }
+                        let cl = HUFFMAN.compressed_len(&input) as i64 - input.len() as i64;
+                        if (-1..=1).contains(&cl) && !seen[(cl + 1) as usize] {
+                            seen[(cl + 1) as usize] = true;
+                            if dst == 0 { plain.push(data.clone()) } else { withtok.push(data.clone()) }
+                        }
+                        if cl > 1 {
+                            break;
+                        }
+                    }
+                }
+            }
+        }
+        for (i, d) in plain.iter().enumerate() {
+            let rcap = if i % 2 == 0 { 1400 } else { 2048 };
+            emit_if(c05, emit_all, &json!({"k": "rt", "v": 6, "rcap": rcap, "hascl": false, "cl": [], "p": {"t": "chunks", "ack": 3, "token": [], "rr": false, "nc": 1, "data": bj(d)}}));
+            emit_if(c05, emit_all, &json!({"k": "rt", "v": 7, "rcap": rcap, "hascl": false, "cl": [], "p": {"t": "chunks", "ack": 3, "token": [9, 8, 7, 6], "rr": false, "nc": 1, "data": bj(d)}}));
+        }
+        for (i, d) in withtok.iter().enumerate() {
+            let rcap = if i % 2 == 0 { 1400 } else { 2048 };
+            emit_if(c05, emit_all, &json!({"k": "rt", "v": 6, "rcap": rcap, "hascl": false, "cl": [], "p": {"t": "chunks", "ack": 3, "token": [9, 8, 7, 6], "rr": true, "nc": 1, "data": bj(d)}}));
+        }
+    }
+
+    // (12) compressed packets of every kind whose DEcompressed size is one under / exactly at / one over the
+    //      body limit (1397 / 1393), read with a scratch buffer of the documented minimum, one byte more, and
+    //      a generous one; compressed with the library's compressor; every hint
+    for v in [6u64, 7] {
+        let hs = if v == 6 { 3usize } else { 7 };
+        let max = 1400 - hs;
+        let hints: &[&str] = if v == 6 { &["none", "true", "false"] } else { &["none"] };
+        for n in [max - 1, max, max + 1] {
+            if !thorough && n < max {
+                continue;
+            }
+            for kind in 0..6 {
+                let mut body: Vec<u8> = Vec::new();
+                let mut ctrl = true;
+                match kind {
+                    0 | 5 => {
+                        // a valid chunk area filling the body (kind 5: its last four bytes are a token)
+                        ctrl = false;
+                        let area = if kind == 5 { n - 4 } else { n };
+                        let cl = json!([{"vital": false, "seq": 0, "resend": false, "data": bj(&vec![0u8; 1000])},
+                                        {"vital": true, "seq": 1023, "resend": true, "data": bj(&vec![1u8; area - 1005])}]);
+                        body = if v == 6 { c6::build_area(&cl) } else { c7::build_area(&cl) }.unwrap_or_default();
+                        if kind == 5 {
+                            body.extend_from_slice(&[9, 8, 7, 6]);
+                        }
+                    }
+                    1 => { body.push(4); body.extend(std::iter::repeat(b'a').take(n - 2)); body.push(0); }
+                    2 => { body.push(0); body.extend(std::iter::repeat(0u8).take(n - 1)); }
+                    3 => { body.push(1); body.extend_from_slice(b"TKEN"); body.extend(std::iter::repeat(0u8).take(n - 5)); }
+                    _ => { body.push(5); body.extend_from_slice(&[9, 8, 7, 6]); body.extend(std::iter::repeat(0u8).take(n - 5)); }
+                }
+                let z = HUFFMAN.compress_into_vec(&body);
+                if hs + z.len() > 1400 {
+                    continue;
+                }
+                let mut dg = vec![0u8; hs];
+                dg[0] = match (v, ctrl) { (6, false) => 0x80, (6, true) => 0x90, (_, false) => 0x10, (_, true) => 0x14 };
+                dg[2] = if ctrl { 0 } else { 2 };
+                if v == 7 {
+                    dg[3..7].copy_from_slice(&[9, 8, 7, 6]);
+                }
+                dg.extend_from_slice(&z);
+                for &cap in if thorough { &[1400usize, 1401, 2048][..] } else { &[1400usize][..] } {
+                    for h in hints {
+                        emit_if(c06, emit_all, &rd_case(v, &dg, h, cap));
+                    }
+                }
+            }
+        }
+    }
+
     // (6) headers: random in-range field tuples and random byte patterns
     for _ in 0..n_hdr {
         let v = if g.rng.gen_bool(0.5) { 6 } else { 7 };
@@ -1506,6 +2032,7 @@ fn main() {
         "exec" => {
             let stdin = std::io::stdin();
             let mut tlc_tail: Vec<String> = Vec::new();
+            let (mut bulk_slices, mut bulk_tuples) = (0u64, 0u64);
             for line in stdin.lock().lines() {
                 let line = match line {
                     Ok(l) => l,
@@ -1519,6 +2046,25 @@ fn main() {
                     serde_json::from_str(t).ok()
                 } else if t.starts_with("<<\"V\"") {
                     vh_common::parse_tlc_tuple(t).and_then(|p| p.get(1).and_then(|s| serde_json::from_str(s).ok()))
+                } else if t.starts_with("<<\"BULK\"") {
+                    // a slice of a header space on which TLC has just checked the header laws and the table law
+                    if let Some(p) = vh_common::parse_tlc_tuple(t) {
+                        bulk_slices += 1;
+                        bulk_tuples += p.get(3).and_then(|x| x.trim().parse::<u64>().ok()).unwrap_or(0);
+                    }
+                    None
+                } else if t.starts_with("<<\"TAB\"") {
+                    // a class table: sweep its whole space on the real code
+                    let tj: Option<Value> = vh_common::parse_tlc_tuple(t).and_then(|p| p.get(1).and_then(|s| serde_json::from_str(s).ok()));
+                    match tj.as_ref().and_then(Tab::from_json) {
+                        Some(tab) => {
+                            let t0 = std::time::Instant::now();
+                            let (total, mism, pn, sampled) = sweep(&tab, &mut |c| run(c, &mut out));
+                            println!("SWEEP {} sfx={} tuples={} mismatches={} panics={} sampled={} ms={}", tab.id, vh_common::hex(&tab.sfx), total, mism, pn, sampled, t0.elapsed().as_millis());
+                        }
+                        None => println!("SWEEP-BADTABLE {}", &t[..t.len().min(120)]),
+                    }
+                    None
                 } else {
                     // TLC's own messages: keep the tail for the driver
                     tlc_tail.push(line.clone());
@@ -1533,6 +2079,7 @@ fn main() {
             }
             drop(run);
             flush_batch(&mut out, &mut pending, n, batch <= 1);
+            println!("BULKLAW slices={} tuples={}", bulk_slices, bulk_tuples);
             for l in tlc_tail {
                 println!("TLC| {}", l);
             }
